@@ -50,3 +50,54 @@ package exif2
 //@   ensures [C07 C03] t.IsEmbedded() && t.ID == gpsifd.GPSLatitudeRef ==> r0 == (t.Type == tag.TypeASCII && slotByte0(t.ValueOffset, t.ByteOrder) == 'S')
 //@   ensures [C07 C03] t.IsEmbedded() && t.ID == gpsifd.GPSLongitudeRef ==> r0 == (t.Type == tag.TypeASCII && slotByte0(t.ValueOffset, t.ByteOrder) == 'W')
 //@   ensures [C07 C03] !t.IsEmbedded() ==> r0 == false
+
+// ---- C01/C02: the Exif reader. Data-structure invariant of an ifdReader in use: it owns a pooled buffer, has a reader,
+// and the pending-tag buffer indices are within the 84-entry array.
+//@ spec irOK(ir) = ir.buffer != nil && ir.reader != nil && ir.buffer.len <= 84 && ir.buffer.pos <= ir.buffer.len
+// A tag handed to a value decoder is either embedded (no read happens) or it is the current entry of the pending-tag buffer
+// (readTagValue reads the value of the CURRENT entry).
+//@ spec tagPre(ir, t) = irOK(ir) && ir.buffer.pos < 84 && (t.IsEmbedded() || t == ir.buffer.tag[ir.buffer.pos])
+
+//@ pool bufferPool *buffer
+
+//@ func ifds.IfdType.TagName
+//@   pure
+
+//@ func (*ifdReader).fastRead
+//@   props C01 C02 C08
+//@   requires irOK(ir) && n >= 0
+//@   modifies ir.po, stream(ir.reader), ir.buffer.buf
+//@   ensures [C01 C08] err == nil ==> len(buf) == n
+//@   ensures err != nil ==> len(buf) == 0 || len(buf) < n
+
+//@ func (*ifdReader).discard
+//@   props C01 C02 C08
+//@   requires irOK(ir)
+//@   modifies ir.po, stream(ir.reader), ir.buffer.buf
+
+//@ func (*ifdReader).readTagValue
+//@   props C01 C02
+//@   requires irOK(ir) && ir.buffer.pos < 84
+//@   modifies ir.po, stream(ir.reader), ir.buffer.buf
+//@   ensures [C01] err == nil ==> len(buf) == int(ir.buffer.tag[ir.buffer.pos].Size())
+
+//@ func (*ifdReader).seekToTag
+//@   props C01 C02
+//@   requires irOK(ir)
+//@   modifies ir.po, stream(ir.reader), ir.buffer.buf
+
+//@ func (*ifdReader).readUint16
+//@   props C01
+//@   requires irOK(ir)
+//@   modifies ir.po, stream(ir.reader), ir.buffer.buf
+
+//@ func (*ifdReader).readUint32
+//@   props C01
+//@   requires irOK(ir)
+//@   modifies ir.po, stream(ir.reader), ir.buffer.buf
+
+//@ func (*ifdReader).addTagBuffer
+//@   props C01 C02
+//@   requires irOK(ir)
+//@   modifies ir.buffer.len, ir.buffer.tag
+//@   ensures ir.buffer.len <= 84 && ir.buffer.len >= old(ir.buffer.len) && ir.buffer.len <= old(ir.buffer.len) + 1
